@@ -664,3 +664,256 @@ Proof.
   destruct (pats_match_used _ _ _ _ _ _ _ H (NoDup_nil _)) as [H1 H2].
   rewrite app_nil_r in H2. eapply Permutation_NoDup; eassumption.
 Qed.
+
+(* ------------------------------------------------------------------ *)
+(* every assignment is enumerated exactly once *)
+
+Lemma nodup_app {A} (l1 l2 : list A) :
+  NoDup l1 -> NoDup l2 -> (forall x, In x l1 -> ~ In x l2) -> NoDup (l1 ++ l2).
+Proof.
+  induction l1 as [|a l1 IH]; intros H1 H2 Hd; cbn; [exact H2|].
+  inversion H1; subst. constructor.
+  - rewrite in_app_iff. intros [H|H]; [contradiction|]. apply (Hd a); [left; reflexivity | exact H].
+  - apply IH; auto. intros x Hx. apply Hd. right. exact Hx.
+Qed.
+
+Lemma nodup_map_inj_on {A B} (k : A -> B) (l : list A) a a' :
+  NoDup (map k l) -> In a l -> In a' l -> k a = k a' -> a = a'.
+Proof.
+  induction l as [|x l IH]; cbn; intros Hn H1 H2 E; [contradiction|].
+  inversion Hn as [|? ? Hx Hn']; subst.
+  destruct H1 as [->|H1], H2 as [->|H2]; auto.
+  - exfalso. apply Hx. rewrite E. apply in_map, H2.
+  - exfalso. apply Hx. rewrite <- E. apply in_map, H1.
+Qed.
+
+Lemma nodup_of_map {A B} (k : A -> B) (l : list A) : NoDup (map k l) -> NoDup l.
+Proof.
+  induction l as [|x l IH]; cbn; intros H; constructor; inversion H; subst; auto.
+  intros Hin. apply H2. apply in_map, Hin.
+Qed.
+
+Lemma nodup_map_comp {A B C} (k : A -> B) (h : B -> C) (l : list A) :
+  (forall x y, h x = h y -> x = y) -> NoDup (map k l) -> NoDup (map (fun a => h (k a)) l).
+Proof.
+  intros Hi. induction l as [|x l IH]; cbn; intros H; constructor; inversion H; subst; auto.
+  intros Hin. apply in_map_iff in Hin. destruct Hin as [y [E Hy]]. apply Hi in E.
+  apply H2. rewrite <- E. apply in_map, Hy.
+Qed.
+
+Lemma nodup_map_filter {A B} (k : A -> B) (p : A -> bool) (l : list A) :
+  NoDup (map k l) -> NoDup (map k (filter p l)).
+Proof.
+  induction l as [|x l IH]; cbn; intros H; [constructor|]. inversion H; subst.
+  destruct (p x); cbn; auto. constructor; auto.
+  intros Hin. apply in_map_iff in Hin. destruct Hin as [y [E Hy]]. apply filter_In in Hy.
+  apply H2. rewrite <- E. apply in_map, Hy.
+Qed.
+
+Lemma nodup_flat_map_key {A B C} (key : B -> C) (f : A -> list B) (l : list A) :
+  NoDup l ->
+  (forall a, In a l -> NoDup (map key (f a))) ->
+  (forall a a' b b', In a l -> In a' l -> In b (f a) -> In b' (f a') -> key b = key b' -> a = a') ->
+  NoDup (map key (flat_map f l)).
+Proof.
+  induction l as [|a l IH]; intros Hl Hin Hdis; cbn; [constructor|].
+  rewrite map_app. inversion Hl as [|? ? Hna Hl']; subst. apply nodup_app.
+  - apply Hin. left. reflexivity.
+  - apply IH; auto.
+    + intros x Hx. apply Hin. right. exact Hx.
+    + intros x x' b b' Hx Hx'. apply Hdis; right; assumption.
+  - intros c Hc Hc'. apply in_map_iff in Hc. destruct Hc as [b [E Hb]].
+    apply in_map_iff in Hc'. destruct Hc' as [b' [E' Hb']].
+    apply in_flat_map in Hb'. destruct Hb' as [a' [Ha' Hb']].
+    assert (a = a') by (eapply (Hdis a a' b b'); auto; [left; reflexivity | right; exact Ha' | congruence]).
+    subst. contradiction.
+Qed.
+
+Section Mult.
+  Variable g : graph.
+  Hypothesis rels_nodup : NoDup (map r_id (g_rels g)).
+  Hypothesis nodes_nodup : NoDup (map n_id (g_nodes g)).
+
+  Definition hop_key (c : rel * N) : N := r_id (fst c).
+
+  Lemma hops_nodup rp u : NoDup (map hop_key (hops g rp u)).
+  Proof.
+    unfold hops. apply nodup_flat_map_key.
+    - eapply nodup_of_map, rels_nodup.
+    - intros r _. unfold hop.
+      destruct (rel_ok rp r); [|constructor].
+      destruct (rp_dir rp); repeat match goal with |- context [if ?b then _ else _] => destruct b end;
+        cbn; repeat constructor; intros [].
+    - intros r r' [x v] [x' v'] Hr Hr' Hb Hb' E.
+      apply hop_spec in Hb. apply hop_spec in Hb'. destruct Hb as [-> _], Hb' as [-> _].
+      unfold hop_key in E. cbn in E. eapply nodup_map_inj_on; eauto.
+  Qed.
+
+  Definition trail_key (t : list rel * N) : list N * N := (map r_id (fst t), snd t).
+
+  Lemma trails_nodup rp fuel : forall u used, NoDup (map trail_key (trails fuel g rp u used)).
+  Proof.
+    induction fuel as [|f IH]; intros u used; cbn [trails map].
+    - repeat constructor. intros [].
+    - constructor.
+      + intros Hin. apply in_map_iff in Hin. destruct Hin as [[rs w] [E Hin]].
+        apply in_flat_map in Hin. destruct Hin as [c [_ Hin]].
+        destruct (memN (r_id (fst c)) used); [destruct Hin|].
+        apply in_map_iff in Hin. destruct Hin as [t [E' _]]. inversion E'; subst.
+        unfold trail_key in E. cbn in E. discriminate.
+      + apply nodup_flat_map_key.
+        * eapply nodup_of_map, hops_nodup.
+        * intros c _. destruct (memN (r_id (fst c)) used); [constructor|].
+          rewrite map_map. unfold trail_key. cbn [fst snd map].
+          apply (nodup_map_comp trail_key (fun k : list N * N => (r_id (fst c) :: fst k, snd k))); [|apply IH].
+          intros [a b] [a' b'] E. cbn in E. inversion E; subst. reflexivity.
+        * intros c c' b b' Hc Hc' Hb Hb' E.
+          destruct (memN (r_id (fst c)) used); [destruct Hb|].
+          destruct (memN (r_id (fst c')) used); [destruct Hb'|].
+          apply in_map_iff in Hb. destruct Hb as [t [<- _]].
+          apply in_map_iff in Hb'. destruct Hb' as [t' [<- _]].
+          unfold trail_key in E. cbn in E. inversion E.
+          eapply (nodup_map_inj_on hop_key); eauto. apply hops_nodup.
+  Qed.
+
+  Lemma seg_cands_nodup rp u used : NoDup (map trail_key (seg_cands g rp u used)).
+  Proof.
+    unfold seg_cands. destruct (rp_len rp) as [[lo hi]|].
+    - apply nodup_map_filter, trails_nodup.
+    - rewrite map_map. unfold trail_key. cbn [fst snd map].
+      assert (H := nodup_map_filter hop_key (fun c : rel * N => negb (memN (r_id (fst c)) used)) _ (hops_nodup rp u)).
+      remember (filter _ (hops g rp u)) as l eqn:El. clear El.
+      induction l as [|c l IHl]; cbn [map]; [constructor|]. cbn [map] in H.
+      inversion H as [|? ? Hnot Hrest]; subst.
+      constructor; [|apply IHl; exact Hrest].
+      intros Hin. apply in_map_iff in Hin. destruct Hin as [c' [E Hc']].
+      apply Hnot. unfold hop_key. assert (E1 : r_id (fst c') = r_id (fst c)) by (inversion E; reflexivity).
+      rewrite <- E1. apply (in_map (fun c0 : rel * N => r_id (fst c0))), Hc'.
+  Qed.
+
+  Lemma rels_of_ids (l l' : list rel) :
+    incl l (g_rels g) -> incl l' (g_rels g) -> map r_id l = map r_id l' -> l = l'.
+  Proof.
+    revert l'. induction l as [|r l IH]; intros [|r' l'] H H' E; cbn in E; try discriminate; auto.
+    inversion E. f_equal.
+    - eapply (nodup_map_inj_on r_id); eauto; [apply H | apply H']; left; reflexivity.
+    - apply IH; auto; intros x Hx; [apply H | apply H']; right; exact Hx.
+  Qed.
+
+  Lemma seg_cands_incl rp u used rs w : In (rs, w) (seg_cands g rp u used) -> incl rs (g_rels g).
+  Proof. intros H. apply seg_cands_spec in H. destruct H as [[Hw _] _]. eapply walk_incl, Hw. Qed.
+
+  Definition segs_key (m : list seg_asg * row * list N) : list seg_asg := fst (fst m).
+
+  Lemma enum_segs_nodup segs : forall u r used, NoDup (map segs_key (enum_segs g segs u r used)).
+  Proof.
+    induction segs as [|[rp np] rest IH]; intros u r used; cbn [enum_segs].
+    - repeat constructor. intros [].
+    - apply nodup_flat_map_key.
+      + eapply nodup_of_map, seg_cands_nodup.
+      + intros c _. destruct (find_node g (snd c)) as [n1|]; [|constructor].
+        destruct (node_ok np n1); [|constructor].
+        destruct (bind_var (rp_var rp) (rel_value rp (fst c)) r) as [ra|]; [|constructor].
+        destruct (bind_var (np_var np) (VNode (snd c)) ra) as [rb|]; [|constructor].
+        rewrite map_map. unfold segs_key. cbn [fst snd].
+        apply (nodup_map_comp segs_key (fun a : list seg_asg => (map r_id (fst c), snd c) :: a)); [|apply IH].
+        intros x y E. inversion E. reflexivity.
+      + intros c c' b b' Hc Hc' Hb Hb' E.
+        destruct (find_node g (snd c)) as [n1|]; [|destruct Hb]. destruct (node_ok np n1); [|destruct Hb].
+        destruct (bind_var (rp_var rp) (rel_value rp (fst c)) r) as [ra|]; [|destruct Hb].
+        destruct (bind_var (np_var np) (VNode (snd c)) ra) as [rb|]; [|destruct Hb].
+        destruct (find_node g (snd c')) as [n2|]; [|destruct Hb']. destruct (node_ok np n2); [|destruct Hb'].
+        destruct (bind_var (rp_var rp) (rel_value rp (fst c')) r) as [rc|]; [|destruct Hb'].
+        destruct (bind_var (np_var np) (VNode (snd c')) rc) as [rd|]; [|destruct Hb'].
+        apply in_map_iff in Hb. destruct Hb as [m [<- _]].
+        apply in_map_iff in Hb'. destruct Hb' as [m' [<- _]].
+        unfold segs_key in E. cbn [fst snd] in E. inversion E as [[E1 E2]].
+        destruct c as [rs w], c' as [rs' w']. cbn [fst snd] in *. subst w'. f_equal.
+        apply rels_of_ids; auto; eapply seg_cands_incl; eauto.
+  Qed.
+
+  Definition path_key (m : path_asg * row * list N) : path_asg := fst (fst m).
+
+  Lemma enum_path_nodup p r used : NoDup (map path_key (enum_path g p r used)).
+  Proof.
+    unfold enum_path. apply nodup_flat_map_key.
+    - eapply nodup_of_map, nodes_nodup.
+    - intros n _. destruct (node_ok (fst p) n); [|constructor].
+      destruct (bind_var _ _ r); [|constructor].
+      rewrite map_map. unfold path_key. cbn [fst snd].
+      apply (nodup_map_comp segs_key (fun a : list seg_asg => (n_id n, a))); [|apply enum_segs_nodup].
+      intros x y E. inversion E. reflexivity.
+    - intros n n' b b' Hn Hn' Hb Hb' E.
+      destruct (node_ok (fst p) n); [|destruct Hb]. destruct (bind_var _ _ r); [|destruct Hb].
+      destruct (node_ok (fst p) n'); [|destruct Hb'].
+      destruct (bind_var (np_var (fst p)) (VNode (n_id n')) r); [|destruct Hb'].
+      apply in_map_iff in Hb. destruct Hb as [m [<- _]].
+      apply in_map_iff in Hb'. destruct Hb' as [m' [<- _]].
+      unfold path_key in E. cbn [fst snd] in E. inversion E.
+      eapply (nodup_map_inj_on n_id); eauto.
+  Qed.
+
+  Definition pats_key (m : list path_asg * row * list N) : list path_asg := fst (fst m).
+
+  Lemma enum_pats_nodup iso ps : forall r used, NoDup (map pats_key (enum_pats iso g ps r used)).
+  Proof.
+    induction ps as [|p rest IH]; intros r used; cbn [enum_pats].
+    - repeat constructor. intros [].
+    - apply nodup_flat_map_key.
+      + eapply nodup_of_map, enum_path_nodup.
+      + intros m _. rewrite map_map. unfold pats_key. cbn [fst snd].
+        apply (nodup_map_comp pats_key (fun a : list path_asg => fst (fst m) :: a)); [|apply IH].
+        intros x y E. inversion E. reflexivity.
+      + intros m m' b b' Hm Hm' Hb Hb' E.
+        apply in_map_iff in Hb. destruct Hb as [x [<- _]].
+        apply in_map_iff in Hb'. destruct Hb' as [x' [<- _]].
+        unfold pats_key in E. cbn [fst snd] in E. inversion E.
+        eapply (nodup_map_inj_on path_key); eauto. apply enum_path_nodup.
+  Qed.
+End Mult.
+
+(* ------------------------------------------------------------------ *)
+(* aggregation: one group per distinct grouping key; the groups partition the rows *)
+
+Lemma map_fst_filter {A B} (P : A -> bool) (l : list (A * B)) :
+  map fst (filter (fun kg => P (fst kg)) l) = filter P (map fst l).
+Proof.
+  induction l as [|[k v] l IH]; [reflexivity|]. cbn [filter map fst].
+  destruct (P k); cbn [map fst]; rewrite IH; reflexivity.
+Qed.
+
+Lemma group_rows_keys (l : list (list value * row)) :
+  map fst (group_rows l) = dedup_by row_vals_eqb (map fst l).
+Proof.
+  induction l as [|[k r] rest IH]; [reflexivity|]. cbn [group_rows map fst dedup_by].
+  f_equal. rewrite <- IH.
+  exact (map_fst_filter (fun y => negb (row_vals_eqb k y)) (group_rows rest)).
+Qed.
+
+Lemma partition_concat_perm {A B} (P : A -> bool) (gs : list (A * list B)) :
+  Permutation (concat (map snd (filter (fun kg => P (fst kg)) gs))
+               ++ concat (map snd (filter (fun kg => negb (P (fst kg))) gs)))
+              (concat (map snd gs)).
+Proof.
+  induction gs as [|[k rs] gs IH]; [constructor|]. cbn [filter map snd concat fst].
+  destruct (P k); cbn [negb map snd concat].
+  - rewrite <- app_assoc. apply Permutation_app_head, IH.
+  - eapply perm_trans; [|apply Permutation_app_head, IH].
+    rewrite !app_assoc. apply Permutation_app_tail, Permutation_app_comm.
+Qed.
+
+Lemma group_rows_partition (l : list (list value * row)) :
+  Permutation (concat (map snd (group_rows l))) (map snd l).
+Proof.
+  induction l as [|[k r] rest IH]; [constructor|]. cbn [group_rows map snd concat].
+  rewrite <- app_comm_cons. apply perm_skip.
+  eapply perm_trans; [|exact IH].
+  exact (partition_concat_perm (fun y => row_vals_eqb k y) (group_rows rest)).
+Qed.
+
+(* the grouping keys of the result are pairwise different and are exactly the keys of the input *)
+Lemma group_rows_keys_spec (l : list (list value * row)) :
+  NoDup (map fst (group_rows l)) /\ forall k, In k (map fst (group_rows l)) <-> In k (map fst l).
+Proof.
+  rewrite group_rows_keys. split; [apply dedup_by_NoDup | intros k; apply dedup_by_In]; apply row_vals_eqb_eq.
+Qed.
